@@ -320,6 +320,8 @@ def apiStep (s : Option ApiSt) (toks : List String) : Option ApiSt × List Strin
     match st.consumers.find? (·.1 = cl) with
     | none => (s, ["bad-op"])
     | some (_, cs) =>
+      -- `drop-panic`: dropped by unwinding - a drop like any other
+      let op := if op = "drop-panic" then "drop" else op
       if op = "cancel" || op = "drop" then
         let others := st.consumers.filter (·.1 ≠ cl)
         if cs.cancelled then
